@@ -174,7 +174,7 @@ def main():
                      "kind_free_text": "symbolic executor for Go SSA (go/ssa via x/tools v0.50.0) emitting SMT-LIB2 bit-vector queries to z3; native replay of models with go test -overlay"}],
         "checks": checks,
         "not_applicable": na,
-        "notes": "exit 2 + INCONCLUSIVE lines = the check could not decide within its bounds (never reported as success). See DESIGN.md.",
+        "notes": "exit 2 + INCONCLUSIVE lines = the check could not decide within its bounds (never reported as success). Thorough tier only: a PARTIAL line means an entry reached its time budget (30 min per entry, 2 h per check; SYMGO_THOROUGH_TOTAL_S) - everything explored held, the stated thorough bound was not completed, exit code unaffected. KNOWN-FINDING lines name entries of /verif/known_findings.json with status known. See DESIGN.md.",
     }
     json.dump(m, open(os.path.join(ROOT, 'MANIFEST.json'), 'w'), indent=1)
     print("claimed:", len(checks), "not claimed:", len(na))
